@@ -127,6 +127,23 @@ def make_units(name, iset):
     def find_loop(fn):
         return (fn, 0)
 
+    def carried(stmt, env):
+        """names of the loop-carried locals, found structurally (not by name): assigned in the loop body, read there, and bound
+        before the loop.  -> (address variable, counter variable or None): the counter is the one that starts at the constant 0"""
+        import ast
+        assigned, read = set(), set()
+        for node in ast.walk(ast.Module(body=stmt.body, type_ignores=[])):
+            if isinstance(node, ast.Name):
+                (assigned if isinstance(node.ctx, ast.Store) else read).add(node.id)
+            if isinstance(node, ast.AugAssign) and isinstance(node.target, ast.Name):
+                read.add(node.target.id)
+        names = sorted(n for n in assigned & read if n in env and n != getattr(stmt.target, 'id', None))
+        counters = [n for n in names if isinstance(env[n], int) and not isinstance(env[n], bool) and env[n] == 0]
+        addrs = [n for n in names if n not in counters]
+        if len(addrs) != 1 or len(counters) > 1:
+            raise sym.OutOfSubset('register loop of %s has an unexpected shape: loop-carried locals %s' % (name, names))
+        return addrs[0], (counters[0] if counters else None)
+
     def start_of(init, regs, n, attrs):
         base = r_cur(init, n)
         if kind in USERKINDS:
@@ -156,7 +173,8 @@ def make_units(name, iset):
                 order = list(e.ev(stmt.iter, env, g))
             except Exception:      # noqa  (not a concrete iterable)
                 order = None
-            raise CutPoint(dict(address=env['address'], wc=env.get('write_count'), order=order, target=getattr(stmt.target, 'id', None)), e)
+            av, cv = carried(stmt, env)
+            raise CutPoint(dict(address=env[av], wc=env.get(cv) if cv else None, order=order, target=getattr(stmt.target, 'id', None)), e)
         eng.loop_hooks = {find_loop(K.execute): hook}
         try:
             eng.call(K.execute, [op, mach.cpu])
@@ -195,18 +213,19 @@ def make_units(name, iset):
         got = {}
 
         def hook(e, stmt, env, g):
+            av, cv = carried(stmt, env)
             a0 = e.fresh_int('loop.address', 32)
-            env['address'] = a0
+            env[av] = a0
             got['a0'] = a0
-            if 'write_count' in env:
+            if cv:
                 wc0 = e.fresh_int('loop.write_count', 4)
-                env['write_count'] = wc0
+                env[cv] = wc0
                 got['wc0'] = wc0
             i = e.fresh_int('i', 4, 14)
             got['i'] = i
             e.assign(stmt.target, i, env, g)
             e.block(stmt.body, env, g)
-            raise CutPoint(dict(address=env['address'], wc=env.get('write_count')), e)
+            raise CutPoint(dict(address=env[av], wc=env.get(cv) if cv else None), e)
         eng.loop_hooks = {find_loop(K.execute): hook}
         try:
             eng.call(K.execute, [op, mach.cpu])
@@ -276,14 +295,15 @@ def make_units(name, iset):
         got = {}
 
         def hook(e, stmt, env, g):
+            av, cv = carried(stmt, env)
             got['a'] = e.fresh_int('loop.address', 32)
-            env['address'] = got['a']
+            env[av] = got['a']
             # loop invariant at exit (HEAD: holds at i = 0; STEP: preserved), i = 15
             start = start_of(init, regs, n, attrs)
             e.assume(values_eq(got['a'], (start + 4 * popcount(regs & 0x7FFF, 16)) & M32))
-            if 'write_count' in env:
+            if cv:
                 # after the loop the count equals the number of transferred registers R0..R14
-                env['write_count'] = popcount(regs & 0x7FFF, 16)
+                env[cv] = popcount(regs & 0x7FFF, 16)
             return True
         eng.loop_hooks = {find_loop(K.execute): hook}
         try:
